@@ -146,4 +146,28 @@ CHECKS = {
                "invariant) + regenerated loop skeletons + differential runs "
                "under a controlled scheduler",
  },
+ "C14": {
+  "text": "Theorems (all series, all lengths, any comparison function): the "
+          "early-exit while loops of the three kernels compute exactly 'every "
+          "intermediate sample passes the test' (natural, horizontal, "
+          "missing-value variants); a missing sample blocks every pair across "
+          "it and is isolated; adjacency is symmetric; in exact arithmetic "
+          "the natural test is 'strictly below the chord', which is invariant "
+          "under positive affine maps of values and of times, reads the same "
+          "from either end of the chord, and on the time-reversed series is "
+          "the test between the mirrored indices; retarded + advanced degree = "
+          "degree. The model (comparisons in binary32 like the kernels) is "
+          "compared with the implementation's adjacency inside Coq; the "
+          "implementation is compared with a rational-arithmetic brute force "
+          "and put through the affine / reversal relations.",
+  "design_ref": "DESIGN.md section 5, C14",
+  "note": "trusted: kernels transcribed by hand (loop shape tied by "
+          "correspondence only); binary32 rounding model Base/F32.v; that "
+          "binary32 slopes order like the rationals on the generated data is "
+          "checked by the brute-force comparison, not proved; clustering / "
+          "closeness / betweenness variants: mirrored-series check only",
+  "technique": "Coq proof (loop = forall by induction on fuel; lra/ring "
+               "geometry over Q) + vm_compute correspondence + rational "
+               "brute force",
+ },
 }
